@@ -41,8 +41,8 @@ func (f FaultKind) String() string {
 
 // Fault fires on the Nth (0-based) call of Method counted since ArmFaults.
 type Fault struct {
-	Method string `json:"method"` // "fcu", "getPayload", "newPayload"
-	Nth    int    `json:"nth"`
+	Method string    `json:"method"` // "fcu", "getPayload", "newPayload"
+	Nth    int       `json:"nth"`
 	Kind   FaultKind `json:"kind"`
 }
 
